@@ -492,6 +492,9 @@ class Norm:
             self.closure_depth[n["def"]] = depth + 1
             for i, p in enumerate(n["params"]):
                 self._bind_pat(p, ("cparam", depth + 1, i, n["def"]), ())
+                for x in walk(p):
+                    if x.get("k") == "Bind":
+                        self.def_ctx[x["id"]] = (depth + 1, guards + (("closure", n["def"]),))
             self._index(n["body"], depth + 1, guards + (("closure", n["def"]),))
             return
         elif k == "Assign":
@@ -632,7 +635,10 @@ class Norm:
             effs = [x for x in self.effects.get(lid, [])]
             if effs and (lid in self.mut or any(k in ("assign", "assignop") for _, k, _g in effs)):
                 et = []
+                own = self.def_ctx.get(lid, (0, ()))[1] or ()
                 for node, kind, guards in effs:
+                    if guards[:len(own)] == own:
+                        guards = guards[len(own):]          # guards are relative to where the local is declared
                     gt = self.guard_terms(guards)
                     if kind == "assign":
                         et.append(("assign", self._lhs_path(node["l"]), self._t(node["r"]), gt))
